@@ -162,4 +162,156 @@ theorem civilOfDays_spec (n : Int) :
   have hr : 100 * b + 4 * c + d + E * 400 - E * 400 = 100 * b + 4 * c + d := by omega
   rw [hr, q4, q100]
   omega
+/-! ### chrono's range of day numbers -/
+
+/-- day number of `NaiveDate::MIN` = −262143-01-01 -/
+def dayMin : Int := -95746129
+/-- day number of `NaiveDate::MAX` = +262142-12-31 -/
+def dayMax : Int := 95745399
+
+theorem dby_succ (y : Int) : Civil.daysBeforeYear (y + 1) = Civil.daysBeforeYear y + (Civil.yearLen y : Int) := by
+  have hl := Civil.isLeap_iff y
+  unfold Civil.daysBeforeYear Civil.yearLen
+  cases hL : Civil.isLeap y <;> simp only [hL, Bool.false_eq_true, false_iff, true_iff, if_true, if_false] at hl ⊢ <;> omega
+
+theorem dby_mono (y y' : Int) (h : y ≤ y') : Civil.daysBeforeYear y ≤ Civil.daysBeforeYear y' := by
+  unfold Civil.daysBeforeYear
+  omega
+
+/-- the day numbers of year `y` are `daysBeforeYear y + 1 ..= daysBeforeYear (y + 1)` -/
+theorem civil_day_bounds (y : Int) (m d : Nat) (hm : 1 ≤ m ∧ m ≤ 12) (hd : 1 ≤ d ∧ d ≤ Civil.monthLen y m) :
+    Civil.daysBeforeYear y + 1 ≤ Civil.daysFromCE y m d ∧ Civil.daysFromCE y m d ≤ Civil.daysBeforeYear (y + 1) := by
+  have h := Civil.dbm_add_le y m d hm hd
+  rw [dby_succ]
+  unfold Civil.daysFromCE
+  omega
+
+/-- month and day returned by Hinnant's inverse as natural numbers, valid in `Civil`'s sense -/
+theorem civilOfDays_nat (n : Int) :
+    (civilOfDays n).2.1 = (((civilOfDays n).2.1.toNat : Nat) : Int) ∧ (civilOfDays n).2.2 = (((civilOfDays n).2.2.toNat : Nat) : Int) ∧
+      (1 ≤ (civilOfDays n).2.1.toNat ∧ (civilOfDays n).2.1.toNat ≤ 12) ∧
+      (1 ≤ (civilOfDays n).2.2.toNat ∧ (civilOfDays n).2.2.toNat ≤ Civil.monthLen (civilOfDays n).1 (civilOfDays n).2.1.toNat) ∧
+      Civil.daysFromCE (civilOfDays n).1 (civilOfDays n).2.1.toNat (civilOfDays n).2.2.toNat = n := by
+  obtain ⟨h1, h2, h3, h4, h5⟩ := civilOfDays_spec n
+  generalize civilOfDays n = c at *
+  obtain ⟨y, m, d⟩ := c
+  simp only at *
+  have hm : m = ((m.toNat : Nat) : Int) := by omega
+  have hd : d = ((d.toNat : Nat) : Int) := by omega
+  have hm' : 1 ≤ m.toNat ∧ m.toNat ≤ 12 := by omega
+  refine ⟨hm, hd, hm', ?_, ?_⟩
+  · rw [hm, daysInMonth_eq y _ hm'] at h4
+    omega
+  · rw [← daysFromCE_eq y _ _ hm', ← hm, ← hd]
+    exact h5
+
+/-- the year of a day number lies in chrono's range exactly for the day numbers `dayMin ..= dayMax` -/
+theorem year_in_range_iff (n : Int) :
+    (-262143 ≤ (civilOfDays n).1 ∧ (civilOfDays n).1 ≤ 262142) ↔ (dayMin ≤ n ∧ n ≤ dayMax) := by
+  obtain ⟨_, _, hm, hd, hn⟩ := civilOfDays_nat n
+  have hb := civil_day_bounds _ _ _ hm hd
+  rw [hn] at hb
+  have e1 : Civil.daysBeforeYear (-262143) = -95746130 := by decide
+  have e2 : Civil.daysBeforeYear 262143 = 95745399 := by decide
+  unfold dayMin dayMax
+  constructor
+  · intro ⟨h1, h2⟩
+    have m1 := dby_mono _ _ h1
+    have m2 := dby_mono ((civilOfDays n).1 + 1) 262143 (by omega)
+    omega
+  · intro ⟨h1, h2⟩
+    refine ⟨?_, ?_⟩
+    · apply Classical.byContradiction
+      intro hc
+      have := dby_mono ((civilOfDays n).1 + 1) (-262143) (by omega)
+      omega
+    · apply Classical.byContradiction
+      intro hc
+      have := dby_mono 262143 (civilOfDays n).1 (by omega)
+      omega
+
+/-- every day number of chrono's range is the day number of a valid date: the date `civilOfDays` returns -/
+theorem validDate_civilOfDays (n : Int) (h : dayMin ≤ n ∧ n ≤ dayMax) :
+    validDate (civilOfDays n).1 (civilOfDays n).2.1 (civilOfDays n).2.2 = true := by
+  obtain ⟨h1, h2, h3, h4, _⟩ := civilOfDays_spec n
+  have hy := (year_in_range_iff n).2 h
+  unfold validDate
+  simp only [Bool.and_eq_true, decide_eq_true_eq]
+  omega
+
+/-- **the two inverses agree** on every day number of chrono's range -/
+theorem civilOfDays_eq (n : Int) (h : dayMin ≤ n ∧ n ≤ dayMax) :
+    civilOfDays n = ((Civil.civilOfDays n).1, ((Civil.civilOfDays n).2.1 : Int), ((Civil.civilOfDays n).2.2 : Int)) := by
+  obtain ⟨hm, hd, _, _, hn⟩ := civilOfDays_nat n
+  have hv := validDate_civilOfDays n h
+  obtain ⟨_, _, hv'⟩ := validDate_nat _ _ _ hv
+  have hr := Civil.civilOfDays_daysFromCE _ _ _ hv'
+  rw [hn] at hr
+  rw [hr]
+  simp only
+  rw [← hm, ← hd]
+
+/-- `daysFromCE` after `civilOfDays` is the identity (every integer) -/
+theorem daysFromCE_civilOfDays (n : Int) :
+    daysFromCE (civilOfDays n).1 (civilOfDays n).2.1 (civilOfDays n).2.2 = n := (civilOfDays_spec n).2.2.2.2
+
+/-- the day number of a valid date is in chrono's range -/
+theorem daysFromCE_range (y m d : Int) (h : validDate y m d = true) :
+    dayMin ≤ daysFromCE y m d ∧ daysFromCE y m d ≤ dayMax := by
+  obtain ⟨hm, hd, hv⟩ := validDate_nat y m d h
+  unfold Civil.validDate Civil.minYear Civil.maxYear at hv
+  simp only [Bool.and_eq_true, decide_eq_true_eq] at hv
+  obtain ⟨⟨⟨⟨⟨hy1, hy2⟩, hm1⟩, hm2⟩, hd1⟩, hd2⟩ := hv
+  have hb := civil_day_bounds y _ _ ⟨hm1, hm2⟩ ⟨hd1, hd2⟩
+  rw [hm, hd, daysFromCE_eq y _ _ ⟨hm1, hm2⟩]
+  have e1 : Civil.daysBeforeYear (-262143) = -95746130 := by decide
+  have e2 : Civil.daysBeforeYear 262143 = 95745399 := by decide
+  have m1 := dby_mono _ _ hy1
+  have m2 := dby_mono (y + 1) 262143 (by omega)
+  unfold dayMin dayMax
+  omega
+
+/-- `civilOfDays` after `daysFromCE` is the identity on valid dates: no date field is altered by the evaluator's
+calendar either -/
+theorem civilOfDays_daysFromCE (y m d : Int) (h : validDate y m d = true) :
+    civilOfDays (daysFromCE y m d) = (y, m, d) := by
+  have hr := daysFromCE_range y m d h
+  obtain ⟨hm, hd, hv⟩ := validDate_nat y m d h
+  have hm12 : 1 ≤ m.toNat ∧ m.toNat ≤ 12 := by
+    unfold validDate at h
+    simp only [Bool.and_eq_true, decide_eq_true_eq] at h
+    omega
+  rw [civilOfDays_eq _ hr]
+  have e : daysFromCE y m d = Civil.daysFromCE y m.toNat d.toNat := by
+    rw [← daysFromCE_eq y _ _ hm12, ← hm, ← hd]
+  rw [e, Civil.civilOfDays_daysFromCE _ _ _ hv]
+  simp only
+  rw [← hm, ← hd]
+
+/-- day numbers and valid dates correspond one to one: `daysFromCE` is injective on valid dates -/
+theorem daysFromCE_injective (y m d y' m' d' : Int) (h : validDate y m d = true) (h' : validDate y' m' d' = true)
+    (e : daysFromCE y m d = daysFromCE y' m' d') : (y, m, d) = (y', m', d') := by
+  rw [← civilOfDays_daysFromCE y m d h, ← civilOfDays_daysFromCE y' m' d' h', e]
+
+/-- the first of January is not after any day of its year, the first of the month not after any day of its month -/
+theorem daysFromCE_month_start (y m d : Int) (hd : 1 ≤ d) : daysFromCE y m 1 ≤ daysFromCE y m d := by
+  simp only [daysFromCE]
+  omega
+
+theorem daysFromCE_year_start (y m d : Int) (h : validDate y m d = true) : daysFromCE y 1 1 ≤ daysFromCE y m d := by
+  obtain ⟨hm, hd, hv⟩ := validDate_nat y m d h
+  unfold Civil.validDate at hv
+  simp only [Bool.and_eq_true, decide_eq_true_eq] at hv
+  obtain ⟨⟨⟨⟨_, hm1⟩, hm2⟩, hd1⟩, hd2⟩ := hv
+  have hb := civil_day_bounds y _ _ ⟨hm1, hm2⟩ ⟨hd1, hd2⟩
+  have e1 : daysFromCE y 1 1 = Civil.daysFromCE y 1 1 := daysFromCE_eq y 1 1 (by decide)
+  rw [hm, hd, daysFromCE_eq y _ _ ⟨hm1, hm2⟩, e1]
+  have : Civil.daysFromCE y 1 1 = Civil.daysBeforeYear y + 1 := by
+    unfold Civil.daysFromCE Civil.daysBeforeMonth; simp
+  omega
+
+example : daysFromCE (-262143) 1 1 = dayMin ∧ daysFromCE 262142 12 31 = dayMax := by decide
+example : civilOfDays dayMin = (-262143, 1, 1) ∧ civilOfDays dayMax = (262142, 12, 31) ∧ civilOfDays 719163 = (1970, 1, 1) := by decide
+example : validDate 2024 2 29 = true ∧ validDate 2023 2 29 = false ∧ validDate 1900 2 29 = false ∧ validDate 2000 2 29 = true := by decide
+
 end Sqlgrep.CivilE
